@@ -254,4 +254,54 @@ var props = map[string]PropSpec{
 		Assumptions: []string{"a variable the rendering no longer mentions is read as unconstrained; a smaller NbVars alone is not a violation (OPB has no variable-count field that ParseOPB reads)"},
 		Outside:     "explain.Problem.CNF (exercised through C07/C08 inputs only); negative cost coefficients; more than 3 variables",
 	},
+	"C16": {
+		ID: "C16",
+		Quick: []HarnessRun{
+			{Name: "solver.VP_C16_two_solvers", Kind: "E", Race: true, Params: map[string]int{"kinds": 4, "preempt": 1}, Bounds: "two goroutines, each one use out of {CDCL with conflict analysis (pigeon-hole 3/2 and a satisfiable variant), CountModels, Minimize with several improving results, PB solving} on its own data; happens-before monitor on every load, store, append and copy; every schedule at go/channel operations with <=1 preemption; results compared with sequential runs", Require: []string{"two-uses"}},
+			{Name: "explain.VP_C16_explain", Kind: "E", Race: true, Params: map[string]int{"first": 3, "methods": 2}, Bounds: "two goroutines running UnsatSubset / MUSDeletion on problems that need search (so that the library's internal solver goroutine and certificate channel are exercised), happens-before monitor, all non-preemptive schedules", Require: []string{"two-uses"}},
+			{Name: "maxsat.VP_C16_maxsat", Kind: "E", Race: true, Bounds: "two goroutines, MaxSAT constraint API and WCNF with result channel (internal goroutine)", Require: []string{"two-uses"}},
+			{Name: "bf.VP_C16_bf", Kind: "E", Race: true, Bounds: "two goroutines calling bf.Solve (including an exactly-one group with auxiliary variables)", Require: []string{"two-uses"}},
+		},
+		Thorough: []HarnessRun{
+			{Name: "solver.VP_C16_two_solvers", Kind: "E", Race: true, Params: map[string]int{"kinds": 4, "preempt": 2}, Bounds: "as quick with <=2 preemptions", Require: []string{"two-uses"}},
+			{Name: "explain.VP_C16_explain", Kind: "E", Race: true, Params: map[string]int{"first": 0, "methods": 3}, Bounds: "all five problems, three methods", Require: []string{"two-uses"}},
+			{Name: "maxsat.VP_C16_maxsat", Kind: "E", Race: true, Bounds: "as quick", Require: []string{"two-uses"}},
+			{Name: "bf.VP_C16_bf", Kind: "E", Race: true, Bounds: "as quick", Require: []string{"two-uses"}},
+		},
+		Assumptions: []string{"the Go memory model is DRF-SC: monitoring sequentially consistent interleavings for happens-before races is sufficient to find data races; with no race and no shared cell, interleavings at non-synchronisation points cannot change results", "Verbose is off (the property excludes it)"},
+		Outside:     "more than two concurrent users; inputs other than the listed concrete scenarios (the scenario list is a stated sample; schedules within it are explored exhaustively up to the preemption bound)",
+	},
+	"C19": {
+		ID: "C19",
+		Quick: []HarnessRun{
+			{Name: "main.VP_C19_cli_cnf", Kind: "E", Params: map[string]int{"n": 2, "m": 2, "k": 2}, Bounds: "main.main interpreted with stubbed os/flag on .cnf files with <=2 clauses x <=2 literals over 2 variables x flags {none, -count, -certified, -mus, -cp, -verbose}; stdout judged by the competition conventions, certificates by an independent RUP procedure, MUS output by brute force", Require: []string{"sat", "unsat", "count", "certified", "mus-sat", "mus-unsat"}},
+			{Name: "main.VP_C19_cli_opb", Kind: "E", Params: map[string]int{"n": 2, "W": 2, "nc": 1}, Bounds: ".opb files: one constraint on <=2 variables with coefficients in [1,2], optional objective, flags {none, -cp, -count}", Require: []string{"optimum", "unsat", "count"}},
+			{Name: "main.VP_C19_cli_opb", Kind: "E", Params: map[string]int{"n": 2, "W": 1, "nc": 2}, Bounds: ".opb files: <=2 constraints with unit coefficients (repeated and contradictory unit constraints included)", Require: []string{"optimum", "unsat", "count"}},
+			{Name: "main.VP_C19_cli_misc", Kind: "E", Bounds: ".wcnf files (<=2 clauses), six .bf texts, unknown suffix, missing file, malformed file", Require: []string{"wcnf", "bf", "unknown", "missing", "malformed"}},
+		},
+		Thorough: []HarnessRun{
+			{Name: "main.VP_C19_cli_cnf", Kind: "E", Params: map[string]int{"n": 3, "m": 2, "k": 2}, Bounds: "3 variables", Require: []string{"sat", "unsat", "count", "certified", "mus-sat", "mus-unsat"}},
+			{Name: "main.VP_C19_cli_cnf", Kind: "E", Params: map[string]int{"n": 2, "m": 3, "k": 2}, Bounds: "<=3 clauses", Require: []string{"sat", "unsat", "count", "certified", "mus-sat", "mus-unsat"}},
+			{Name: "main.VP_C19_cli_opb", Kind: "E", Params: map[string]int{"n": 2, "W": 2, "nc": 2}, Bounds: "<=2 constraints, coefficients in [1,2]", Require: []string{"optimum", "unsat", "count"}},
+			{Name: "main.VP_C19_cli_misc", Kind: "E", Bounds: "as quick", Require: []string{"wcnf", "bf", "unknown", "missing", "malformed"}},
+		},
+		Assumptions: []string{"os.Args, flag.BoolVar/Parse/Args/PrintDefaults, os.Open on a virtual file table, (*os.File).Close and os.Exit are modelled by the engine; counterexamples and sampled paths are re-run on the real executable built from /repo"},
+		Outside:     "combinations of several flags; OS-level failures other than a missing file; files larger than the bounds",
+	},
+	"C20": {
+		ID: "C20",
+		Quick: []HarnessRun{
+			{Name: "solver.VP_C20_stream_optimal", Kind: "E", Params: map[string]int{"nskel": 1, "maxsigns": 0, "maxcap": 2, "preempt": 2}, Bounds: "Optimal with a result channel on a 5-variable instance that yields three improving results, symbolic cost weights in [1,2]; consumer goroutine collecting all results; channel capacity 0..2; every schedule with <=2 preemptions at go/channel operations", Require: []string{"sat", "three-results"}},
+			{Name: "solver.VP_C20_stream_optimal", Kind: "E", Params: map[string]int{"nskel": 3, "maxsigns": 3, "maxcap": 1, "preempt": 1}, Bounds: "three skeletons with the first 3 signs symbolic (satisfiable and unsatisfiable), capacity 0..1, <=1 preemption", Require: []string{"sat"}},
+			{Name: "solver.VP_C20_stream_enumerate", Kind: "E", Params: map[string]int{"n": 2, "m": 1, "k": 2, "maxcap": 2, "preempt": 2}, Bounds: "Enumerate with a model channel on CNF n=2, <=1 clause; capacity 0..2", Require: []string{"enumerated"}},
+			{Name: "maxsat.VP_C20_stream_maxsat", Kind: "E", Params: map[string]int{"n": 2, "m": 2, "k": 2, "W": 2, "maxcap": 1, "preempt": 1}, Bounds: "maxsat Solver.Optimal with result channel (relay goroutine inside) on WCNF with <=2 clauses; capacity 0..1; <=1 preemption", Require: []string{"stream"}},
+		},
+		Thorough: []HarnessRun{
+			{Name: "solver.VP_C20_stream_optimal", Kind: "E", Params: map[string]int{"nskel": 1, "maxsigns": 2, "maxcap": 2}, Bounds: "as quick with 2 symbolic signs and unbounded preemption", Require: []string{"sat", "three-results"}},
+			{Name: "solver.VP_C20_stream_enumerate", Kind: "E", Params: map[string]int{"n": 2, "m": 2, "k": 2, "maxcap": 2}, Bounds: "<=2 clauses, unbounded preemption", Require: []string{"enumerated"}},
+			{Name: "maxsat.VP_C20_stream_maxsat", Kind: "E", Params: map[string]int{"n": 2, "m": 2, "k": 2, "W": 2, "maxcap": 1, "preempt": 2}, Bounds: "<=2 preemptions", Require: []string{"stream"}},
+		},
+		Assumptions: []string{"consumer delays are exactly the schedules in which the consumer is not chosen; the consumer keeps every result and validates them after the stream ends"},
+		Outside:     "the stop channel; streams longer than a handful of results; more than one consumer",
+	},
 }
